@@ -275,6 +275,10 @@ func (n *Node) setup(logDir string, requestID string) error {
 	n.mu.Lock()
 	defer n.mu.Unlock()
 
+	// A relaunched attempt (retry) opens new files: its teardown must flush
+	// and close them as well.
+	n.done = false
+
 	// Set the log file path
 	n.data.State.StartedAt = time.Now()
 	n.data.State.Log = filepath.Join(logDir, fmt.Sprintf("%s.%s.%s.log",
@@ -394,14 +398,14 @@ func (n *Node) teardown() error {
 	n.logLock.Lock()
 	n.done = true
 	var lastErr error
-	for _, w := range []*bufio.Writer{n.logWriter, n.stdoutWriter} {
+	for _, w := range []*bufio.Writer{n.logWriter, n.stdoutWriter, n.stderrWriter} {
 		if w != nil {
 			if err := w.Flush(); err != nil {
 				lastErr = err
 			}
 		}
 	}
-	for _, f := range []*os.File{n.logFile, n.stdoutFile} {
+	for _, f := range []*os.File{n.logFile, n.stdoutFile, n.stderrFile} {
 		if f != nil {
 			if err := f.Sync(); err != nil {
 				lastErr = err
